@@ -220,6 +220,14 @@ func (l *lexer) run() {
 	for l.state = lexStmt; l.state != nil; {
 		l.state = l.state(l)
 	}
+	close(l.items)
+}
+
+// drain drains the output so the lexing goroutine will exit.
+// Called by the parser, not in the lexing goroutine.
+func (l *lexer) drain() {
+	for range l.items {
+	}
 }
 
 // state functions
